@@ -100,6 +100,10 @@ func checkC02(c *Ctx) {
 	}
 	c.Rule("R2.15", "built-in numeric time/duration encoders emit the nanosecond count or its quotient by a constant with a single rounding", 4)
 	c2NumericEncoders(c, "R2.15")
+	c.Rule("R2.17", "configuration names select the documented built-in level/time/duration/caller/name encoders (evaluated on every documented name, the empty name and unknown names)", 5)
+	c2ConfigNames(c, "R2.17")
+	c.Rule("R2.18", "layout-based time encoders format with the documented layout on both the AppendTimeLayout and the time.Format path", 3)
+	c2Layouts(c, "R2.18")
 	c.Rule("R2.14", "short caller representation: everything after the penultimate '/', the whole path with fewer than two separators", 1)
 	c2TrimmedPath(c, "R2.14")
 	c.Rule("R2.13", "what decodes must first parse: every path of every encoder method writes exactly one well-formed member / element / entry (token grammar)", 20)
